@@ -296,8 +296,6 @@ def rand_tree(rng, depth, wf_only=False):
         return ("neg", rand_tree(rng, depth - 1, wf_only))
     op = rng.choice(ALLOPS)
     l, rr = rand_tree(rng, depth - 1, wf_only), rand_tree(rng, depth - 1, wf_only)
-    if wf_only and op in OPS_BY_LEVEL[2] and l[0] == "bin" and l[1] in OPS_BY_LEVEL[2]:
-        op = rng.choice(["+", "*", "and"])
     return ("bin", op, l, rr)
 
 
@@ -449,7 +447,7 @@ class StressGen:
         par = lambda s: "(%s)" % s if rng.random() < 0.6 else s
         if r < 0.65:
             return "%s and %s" % (par(a), par(b))
-        if r < 0.97:
+        if r < 0.92:
             return "%s or %s" % (par(a), par(b))
         return "(%s) == (%s)" % (a, b)
 
@@ -1012,6 +1010,64 @@ def round_trip(p: Procedure, text: str, repair_bool=False):
     return {"status": "ok", "p2": p2, "src": src, "injected_callees": injected_callees}
 
 
+# ====================================================================================== deterministic witnesses
+W_HEADER = progen.HEADER
+
+
+def witnesses():
+    """(kind, module source, [(procedure, [operations])], forced key | None): one small fixed case per class of finding
+    that is listed in known_findings.json, plus regression cases that must PASS; they run before the random programs"""
+    def load(src):
+        mod, err = progen.load_module(src, "c17w")
+        if mod is None:
+            raise RuntimeError("witness module rejected: %s" % err)
+        return mod
+
+    # a bool argument is printed with a memory annotation
+    src = W_HEADER + "\n@proc\ndef foo(b: bool, x: R[1]):\n    if b:\n        x[0] = 1.0\n"
+    yield "witness:bool-argument", src, [(load(src).foo, [])], None
+    # unrolling a zero-trip loop leaves an empty body (alone: cannot be printed; after an assert: cannot be parsed)
+    src = W_HEADER + "\n@proc\ndef foo(x: R[4]):\n    for i in seq(0, 0):\n        x[i] = 1.0\n"
+    p = load(src).foo
+    yield "witness:empty-body", src, [(S.unroll_loop(p, "i"), ["unroll_loop i"])], None
+    src = W_HEADER + "\n@proc\ndef foo(n: size, x: R[4]):\n    assert n >= 1\n    for i in seq(3, 3):\n        x[i] = 1.0\n"
+    p = load(src).foo
+    yield "witness:empty-body", src, [(S.unroll_loop(p, "i"), ["unroll_loop i"])], None
+    # -0 after unrolling
+    src = W_HEADER + "\n@proc\ndef foo(n: size, x: R[4]):\n    for i in seq(0, 1):\n        if -i + n > 0:\n            x[i] = 1.0\n"
+    p = load(src).foo
+    yield "witness:minus-zero", src, [(S.unroll_loop(p, "i"), ["unroll_loop i"])], None
+    # partial evaluation against the precondition: the assertion becomes unsatisfiable
+    src = W_HEADER + "\n@proc\ndef foo(n: size, x: R[n]):\n    assert n >= 3\n    x[2] = 1.0\n"
+    p = load(src).foo
+    yield "witness:unsatisfiable-assertion", src, [(p.partial_eval(n=1), ["partial_eval n=1"])], None
+    # extracting a sub-procedure twice: the outer one does not carry the precondition the inner one asserts
+    src = (W_HEADER + "\n@proc\ndef foo(n: size, y: R[2], u: [R][4]):\n    assert n >= 3\n    for ii in seq(0, n):\n"
+           "        u[3] = y[1]\n")
+    p = load(src).foo
+    q1 = S.extract_subproc(p, p.body(), "sub_a")[0]
+    q2 = S.extract_subproc(q1, q1.body(), "sub_b")[0]
+    yield "witness:callee-assertion", src, [(q2, ["extract_subproc body sub_a", "extract_subproc body sub_b"])], None
+    # a configuration write under a guard on a loop variable
+    src = (W_HEADER + "\n@config\nclass CfgW:\n    a: index\n    flag: bool\n\n@proc\ndef foo(n: size, x: R[2]):\n"
+           "    CfgW.a = 2\n")
+    p = load(src).foo
+    q1 = S.add_loop(p, p.body(), "k", 2, guard=True)
+    q2 = S.specialize(q1, q1.find_loop("k").body(), ["k < 0"])
+    yield "witness:config-write-in-loop", src, [(q2, ["add_loop body k 2 guard", "specialize loop body k < 0"])], None
+    # REGRESSION (must pass): a comparison as the left operand of a comparison keeps its parentheses
+    src = (W_HEADER + "\n@config\nclass CfgR:\n    a: index\n    flag: bool\n\n@proc\ndef foo(n: size, x: R[4]):\n"
+           "    for i in seq(0, 4):\n        for j in seq(0, 4):\n            if (CfgR.flag == (i < 2)) == (j < 3):\n"
+           "                x[i] = 1.0\n            if ((i < 2) == (j < 3)) == CfgR.flag:\n                x[j] += 2.0\n")
+    yield "regress:comparison-chain", src, [(load(src).foo, [])], "print:regress:comparison-chain"
+    src = (W_HEADER + "\n@proc\ndef foo(n: size, x: R[n]):\n    assert n >= 3\n    if n == 5:\n        x[0] = 1.0\n"
+           "    else:\n        x[n - 1] = 2.0\n")
+    p = load(src).foo
+    q, sub = S.extract_subproc(p, p.find("x[n - 1] = _"), "sub")
+    yield "regress:comparison-chain", src, [(q, ["extract_subproc else-branch"]), (sub, ["extract_subproc else-branch (callee)"])], \
+        "print:regress:comparison-chain"
+
+
 # ====================================================================================== main
 def main():
     seed, n_prog, n_expr, n_parse, do_search = (int(x) for x in sys.argv[1:6])
@@ -1024,8 +1080,16 @@ def main():
     def bump(k, n=1):
         stats[k] = stats.get(k, 0) + n
 
+    force = [None]
+
     def emit(rec):
+        if rec.get("t") == "finding":
+            if force[0]:
+                rec["key"] = force[0]
+            bump("findings_in:" + current[0])
         out.write(json.dumps(rec, default=str) + "\n")
+
+    current = ["-"]
 
     # ---------------------------------------------------------------- expressions (printer + parser models)
     for k in range(n_expr):
@@ -1103,45 +1167,65 @@ def main():
         import semcheck
         sc = semcheck.SemChecker(random.Random(seed ^ 0x5EED), n_inputs=4)
         sc.mod_fields = lambda old, new: (True, set())  # unrelated procedures: every configuration field must agree
-    pid = 0
-    for k in range(n_prog):
-        if time.time() - t0 > budget:
-            bump("stopped_on_time_budget")
-            break
-        uid = "q%d" % k
-        r_kind = rng.random()
-        if r_kind < 0.2:
-            gen_kind = "ladder"
-            src = ladder_module(rng)
-            cfg_name = None
-        elif r_kind < 0.55:
-            gen_kind = "stress"
-            g = StressGen(rng, uid)
-            src = g.module()
-            cfg_name = g.cfg
-        else:
-            gen_kind = "progen"
-            g = progen.ProgGen(rng, uid)
-            src = g.module()
-            cfg_name = g.cfg_name
-        mod, err = progen.load_module(src, "c17")
-        if mod is None:
-            bump("rejected_by_front_end:" + gen_kind)
-            emit({"t": "reject", "gen": gen_kind, "err": err})
-            continue
-        bump("accepted:" + gen_kind)
-        p0 = mod.foo
-        cfgs = [getattr(mod, cfg_name)] if cfg_name and hasattr(mod, cfg_name) else []
-        variants = [(p0, [])]
-        for _ in range(2):
-            try:
-                nops = rng.randint(1, 3)
-                p1, applied = with_timeout(30, lambda: schedule(p0, rng, cfgs, nops))
-            except Exception as e:
-                bump("schedule_crash")
+    def programs():
+        for k in range(n_prog):
+            if time.time() - t0 > budget:
+                bump("stopped_on_time_budget")
+                return
+            uid = "q%d" % k
+            r_kind = rng.random()
+            if r_kind < 0.2:
+                gen_kind = "ladder"
+                src = ladder_module(rng)
+                cfg_name = None
+            elif r_kind < 0.55:
+                gen_kind = "stress"
+                g = StressGen(rng, uid)
+                src = g.module()
+                cfg_name = g.cfg
+            else:
+                gen_kind = "progen"
+                g = progen.ProgGen(rng, uid)
+                src = g.module()
+                cfg_name = g.cfg_name
+            mod, err = progen.load_module(src, "c17")
+            if mod is None:
+                bump("rejected_by_front_end:" + gen_kind)
+                emit({"t": "reject", "gen": gen_kind, "err": err})
                 continue
-            if applied:
-                variants.append((p1, applied))
+            bump("accepted:" + gen_kind)
+            p0 = mod.foo
+            cfgs = [getattr(mod, cfg_name)] if cfg_name and hasattr(mod, cfg_name) else []
+            variants = [(p0, [])]
+            for _ in range(2):
+                try:
+                    nops = rng.randint(1, 3)
+                    p1, applied = with_timeout(30, lambda: schedule(p0, rng, cfgs, nops))
+                except Exception as e:
+                    bump("schedule_crash")
+                    continue
+                if applied:
+                    variants.append((p1, applied))
+            yield gen_kind, src, variants, None
+
+    def fixed():
+        if not do_search:
+            return
+        try:
+            for w in witnesses():
+                bump("witness_cases")
+                yield w
+        except Exception as e:
+            emit({"t": "driver_error", "detail": "witness construction: %s: %s" % (type(e).__name__, e),
+                  "tb": traceback.format_exc()[-800:]})
+
+    import itertools
+    pid = 0
+    for gen_kind, src, variants, forced in itertools.chain(fixed(), programs()):
+        force[0] = forced
+        current[0] = gen_kind
+        if gen_kind.startswith("regress:"):
+            bump("regress_cases_run", len(variants))
         for p, applied in variants:
             pid += 1
             ir = p._loopir_proc
@@ -1210,9 +1294,7 @@ def main():
                              "typecheck" if "during typechecking" in msg else
                              "static-check" if rt["cls"] == "TypeError" else rt["cls"])
                     key = "print:roundtrip-reject:%s:%s" % (phase, norm_msg(rt["cls"], msg))
-                    if chain:
-                        key = "print:comparison-chain:reject"
-                    elif has_empty_block(ir):
+                    if has_empty_block(ir):
                         key = "print:empty-body:reject"
                     emit({"t": "finding", "key": key, "what": "the real front end rejects the printed procedure",
                           "replay": dict(replay, error=(rt["msg"] or "")[-500:], roundtrip_src=rt["src"])})
@@ -1222,8 +1304,8 @@ def main():
                 t2 = str(p2)
                 if t2 != text:
                     bump("roundtrip_text_differs")
-                    key = "print:comparison-chain:text" if chain else "print:roundtrip-text:%s" % first_diff(text, t2)
-                    if not chain and re.sub(r"-0\b(?!\.)", "0", text) == t2:
+                    key = "print:roundtrip-text:%s" % first_diff(text, t2)
+                    if re.sub(r"-0\b(?!\.)", "0", text) == t2:
                         key = "print:roundtrip-text:minus-zero"
                     emit({"t": "finding", "key": key,
                           "what": "printing the re-parsed procedure gives a different text",
@@ -1246,7 +1328,7 @@ def main():
                         break
                     else:
                         bump("roundtrip_behaviour_differs")
-                        key = "print:comparison-chain:behaviour" if chain else "print:roundtrip-behaviour:%s" % res["kind"]
+                        key = "print:roundtrip-behaviour:%s" % res["kind"]
                         emit({"t": "finding", "key": key,
                               "what": "the re-parsed procedure behaves differently in the reference interpreter (%s)" % direction,
                               "replay": dict(replay, reprinted=t2, direction=direction, input=res.get("input"),
